@@ -201,3 +201,6 @@ func P2WPKH(h20 []byte, net *chaincfg.Params) (string, []byte) {
 	}
 	return a.EncodeAddress(), append([]byte{0x00, 0x14}, h20...)
 }
+
+// P2WPKHScript is the output script for a 20-byte key hash.
+func P2WPKHScript(h20 []byte) []byte { return append([]byte{0x00, 0x14}, h20...) }
